@@ -416,6 +416,25 @@ pub fn check_text(text: &str, full: bool, stats: &mut Stats) {
     }
 }
 
+/// Literals whose text is far longer than any value-derived spelling.
+fn long_literals() -> Vec<String> {
+    let mut v = vec![];
+    for n in [100usize, 400, 800, 1500] {
+        let z = "0".repeat(n);
+        v.push(format!("1.{z}"));
+        v.push(format!("-2.5{z}e2"));
+        v.push(format!("0.{z}1"));
+        v.push(format!("{z}7"));
+        v.push(format!("+{z}7"));
+        v.push(format!("0x{z}1F"));
+        v.push(format!("0o{z}17"));
+        v.push(format!("1{z}"));
+        v.push(format!("1{z}.5"));
+        v.push(format!("1e{z}1"));
+    }
+    v
+}
+
 pub fn run_c08(tier: &str, seed: u64, shard: u64, nshards: u64, scale: f64, stats: &mut Stats) {
     let thorough = tier == "thorough";
     let l: u32 = if thorough { 5 } else { 4 };
@@ -450,6 +469,9 @@ pub fn run_c08(tier: &str, seed: u64, shard: u64, nshards: u64, scale: f64, stat
         stats.exhaustive_parts.insert(format!("all {total} texts of length <= {l} over the 27-symbol core-schema alphabet (untagged plain reading; tags/styles/documents on all texts of length <= 3, on every literal, and on a 1/16 sample)"));
         for w in WORDS {
             check_text(w, true, stats);
+        }
+        for w in long_literals() {
+            check_text(&w, true, stats);
         }
     }
     // random longer texts: mutations of literals
